@@ -427,6 +427,11 @@ def _inject(rng, st, fn, kw, fkind, k, table):
         others = [j for j in st["junctions"]]
         p = [p for p in st["pipes"] if p[0] == (kw["element"] if "element" in kw else kw["elements"][0])]
         bad = [j for j in others if p and j not in (p[0][1], p[0][2])]
+        if "elements" in kw and p:
+            # preferably an end of another pipe of the same call (a per-call membership test would accept it)
+            ends = [j for q in st["pipes"] if q[0] in kw["elements"][1:] for j in (q[1], q[2]) if j not in (p[0][1], p[0][2])]
+            if ends:
+                bad = ends
         if not bad:
             kw["et"] = "xx"
             return
@@ -1201,7 +1206,7 @@ def _exec_c17(trace, res):
                 state = _apply_fuse_to_state(state, jt)
             elif kind == "select_subnet":
                 whole = rng.random() < 0.35
-                sub_j = list(J) if whole else rng.sample(J, rng.randint(1, len(J)))
+                sub_j = list(J) if whole else rng.sample(J, rng.choice([2, 2, rng.randint(1, len(J))]) if len(J) >= 2 else 1)
                 if whole:
                     rng.shuffle(sub_j)
                 sub_with_results = op.get("with_results") or rng.random() < 0.7
@@ -1271,7 +1276,7 @@ def _exec_c17(trace, res):
                         if d:
                             res.violate("C17", "C17/subnet-does-not-reproduce-region:%s" % d[0], ",".join(d)[:300], oi)
                         res.count("probe:complete-region-recalculated")
-            if op["r"] % 10 < 3 and len(sub.junction) >= 2:
+            if (op["r"] % 10 < 3 or "pipe" not in sub) and len(sub.junction) >= 2:
                 # the history goes on with the subnet
                 net = sub
                 state = _identity_state(net)
